@@ -20,6 +20,7 @@ def sp():
 
 
 _SUMMARY = {}
+_POST = {}
 
 
 MATRIX_T = ("Matrix<",)
@@ -50,6 +51,7 @@ class Fun:
         self.wrap = {}
         self.approx_loops = set()
         self.extra_rels = list(extra_rels or [])
+        self.sub1 = self._single_assigned()
 
     def sym(self, kind, root):
         name = "%s_%s" % (kind, root)
@@ -314,6 +316,9 @@ class Fun:
             d = n["decl"]
             if d["id"] in self.sub:
                 return self.size_expr(self.sub[d["id"]], self.sub[d["id"]], depth + 1)
+            r1 = self._sub1(d["id"], site)
+            if r1 is not None:
+                return self.size_expr(r1, r1, depth + 1)
             if d["kind"] == "param" and ("int" in d["ty"] or "long" in d["ty"] or "short" in d["ty"]) and "std::" not in d["ty"]:
                 return self.sym("P", d["name"])
             return None
@@ -359,12 +364,12 @@ class Fun:
             init = f.nodes.get(lp["init"])
             if init is None or init["k"] != "DeclStmt" or not any(d["id"] == var_id for d in init["decls"]):
                 if init is not None and init["k"] == "BinaryOperator" and init["op"] == "=" and strip(kids(init)[0])["k"] == "DeclRefExpr" and strip(kids(init)[0])["decl"]["id"] == var_id:
-                    start = self.size_expr(kids(init)[1], lp)
+                    start = self.size_expr(kids(init)[1], init)
                 else:
                     continue
             else:
                 d = [d for d in init["decls"] if d["id"] == var_id][0]
-                start = self.size_expr(d["init"], lp) if d.get("init") is not None else None
+                start = self.size_expr(d["init"], init) if d.get("init") is not None else None
             cond = strip(f.nodes[lp["cond"]])
             inc = strip(f.nodes[lp["inc"]])
             # other writes to the variable inside the body break the pattern
@@ -393,7 +398,7 @@ class Fun:
                 return None
             l, r = strip(kids(cond)[0]), strip(kids(cond)[1])
             if l["k"] == "DeclRefExpr" and l["decl"]["id"] == var_id:
-                bound = self.size_expr(r, lp)
+                bound = self.size_expr(r, cond)
                 if bound is None:
                     return None
                 # unsigned arithmetic: 'n - 1' as a loop bound (or start) must not go below zero
@@ -417,7 +422,7 @@ class Fun:
             if l["k"] == "BinaryOperator" and l["op"] == "+" and up and cond["op"] == "<":
                 a, b = strip(kids(l)[0]), strip(kids(l)[1])
                 if a["k"] == "DeclRefExpr" and a["decl"]["id"] == var_id and b["k"] == "IntegerLiteral":
-                    bound = self.size_expr(r, lp)
+                    bound = self.size_expr(r, cond)
                     if bound is not None:
                         return (start, bound - int(b["val"]))
             return None
@@ -446,7 +451,12 @@ class Fun:
                     loops[d["name"]] = rg
                     if d["id"] in self.approx_loops:
                         loops["~approx"] = (S.Integer(0), S.Integer(1))
-                    return (rg[0], rg[1] - 1)
+                    lo_, hi_ = rg[0], rg[1] - 1
+                    rf = self._syntactic_guards(d["id"], n)
+                    if rf[0] is not None:
+                        lo_ = S.Max(lo_, rf[0]) if not (lo_.is_number and rf[0].is_number) else max(lo_, rf[0])
+                        loops["~approx"] = (S.Integer(0), S.Integer(1))
+                    return (lo_, hi_)
                 if d["id"] in self.sub:
                     return ev(self.sub[d["id"]], depth + 1)
                 e = self.size_expr(n, site)
@@ -457,6 +467,12 @@ class Fun:
                     loops["~wrap:" + d["name"]] = cd[2]
                     loops["~approx"] = (S.Integer(0), S.Integer(1))
                     return (cd[0], cd[1])
+                gc = self._guarded_counter(d["id"], n)
+                if gc is not None:
+                    if gc[2] is not None:
+                        loops["~wrap:" + d["name"]] = gc[2]
+                    loops["~exact:" + d["name"]] = (gc[0], gc[1] + 1)
+                    return (gc[0], gc[1])
                 hl = self._hull(d["id"], depth)
                 if hl is not None:
                     loops["~approx"] = (S.Integer(0), S.Integer(1))
@@ -478,6 +494,48 @@ class Fun:
         if r is None:
             return None
         return (r[0], r[1], loops)
+
+    def _single_assigned(self):
+        """locals declared without initialiser and assigned exactly once by a plain '=': id -> (rhs, assignment node)"""
+        f = self.f
+        noinit = {}
+        for n in f.all_nodes():
+            if n["k"] == "DeclStmt":
+                for d in n["decls"]:
+                    if d.get("init") is None and ("int" in d["ty"] or "long" in d["ty"]) and "*" not in d["ty"] and "&" not in d["ty"]:
+                        noinit[d["id"]] = d
+        out = {}
+        for vid in noinit:
+            ws = self._writes_to(vid)
+            if len(ws) == 1 and ws[0]["k"] == "BinaryOperator" and ws[0]["op"] == "=" and f.enclosing(ws[0], ("ForStmt", "WhileStmt", "DoStmt")) is None:
+                # address taken / passed by reference elsewhere?
+                escapes = False
+                for c in f.calls():
+                    pt = c["callee"].get("ptypes") or []
+                    for i_, a in enumerate(f.args(c)):
+                        a_ = strip(a)
+                        if a_ is not None and a_["k"] == "DeclRefExpr" and a_["decl"]["id"] == vid and i_ < len(pt) and "&" in pt[i_] and not pt[i_].startswith("const "):
+                            escapes = True
+                if not escapes:
+                    out[vid] = (kids(ws[0])[1], ws[0])
+        return out
+
+    def _sub1(self, var_id, site):
+        """right-hand side of the single assignment of var_id when that assignment is made on every path to site"""
+        ent = self.sub1.get(var_id)
+        if ent is None or site is None:
+            return None
+        rhs, asg = ent
+        cfg = self.cfg
+        ab, sb = cfg.stmt_block(asg), cfg.stmt_block(site)
+        if sb is None and site.get("k") in ("ForStmt", "WhileStmt", "IfStmt", "DoStmt") and "cond" in site:
+            site = self.f.nodes[site["cond"]]
+            sb = cfg.stmt_block(site)
+        if ab is None or sb is None:
+            return None
+        if ab == sb:
+            return rhs if e1.before_in_function(cfg, asg, site) else None
+        return rhs if cfg.dominates(ab, sb) else None
 
     def _writes_to(self, var_id):
         out = []
@@ -527,6 +585,102 @@ class Fun:
         S = sp()
         return (S.Integer(0), e - 1, e - 1)
 
+    def _syntactic_guards(self, var_id, use):
+        """lower bound on a variable at `use` from tests that syntactically enclose it: 'i > c && <use>', 'if (i > c) <use>'"""
+        f = self.f
+        S = sp()
+        lo = None
+
+        def test(c):
+            c = strip(c)
+            if c["k"] == "BinaryOperator" and c["op"] in (">", ">=", "!="):
+                l, r = strip(kids(c)[0]), strip(kids(c)[1])
+                if l["k"] == "DeclRefExpr" and l["decl"]["id"] == var_id and r["k"] == "IntegerLiteral":
+                    v = int(r["val"])
+                    if c["op"] == ">":
+                        return S.Integer(v + 1)
+                    if c["op"] == ">=":
+                        return S.Integer(v)
+                    if c["op"] == "!=" and v == 0:
+                        return S.Integer(1)
+            return None
+        prev = use
+        for a in f.ancestors(use):
+            if a["k"] == "BinaryOperator" and a.get("op") == "&&" and f.contains(kids(a)[1], use):
+                conj = []
+
+                def flat(c):
+                    c = strip(c)
+                    if c["k"] == "BinaryOperator" and c["op"] == "&&":
+                        flat(kids(c)[0]); flat(kids(c)[1])
+                    else:
+                        conj.append(c)
+                flat(kids(a)[0])
+                for c in conj:
+                    t = test(c)
+                    if t is not None:
+                        lo = t if lo is None else max(lo, t)
+            if a["k"] == "IfStmt" and "then" in a and f.contains(f.nodes[a["then"]], use):
+                t = test(f.nodes[a["cond"]])
+                if t is not None:
+                    lo = t if lo is None else max(lo, t)
+        return (lo, None)
+
+    def _guarded_counter(self, var_id, use):
+        """'size_t j = 0; ... while (j < B && ...) j++;' : a cursor that only moves forward under its own bound test.
+        Anywhere j <= max(start, B); to the right of the test inside the loop condition and in the loop body j <= B - 1.
+        Returns (lo, hi, wrap obligation | None)."""
+        f = self.f
+        S = sp()
+        dn, init = self._decl_init(var_id)
+        if dn is None or init is None:
+            return None
+        e0 = self.size_expr(init, dn)
+        if e0 is None:
+            return None
+        ws = self._writes_to(var_id)
+        if not ws:
+            return None
+        bound, braw, loopsn = None, None, []
+        for w in ws:
+            if w["k"] != "UnaryOperator" or w["op"] != "++":
+                return None
+            lp = f.enclosing(w, ("WhileStmt",))
+            if lp is None or "cond" not in lp:
+                return None
+            cond = strip(f.nodes[lp["cond"]])
+            conj = []
+
+            def flat(c):
+                c = strip(c)
+                if c["k"] == "BinaryOperator" and c["op"] == "&&":
+                    flat(kids(c)[0]); flat(kids(c)[1])
+                else:
+                    conj.append(c)
+            flat(cond)
+            mine = [c for c in conj if c["k"] == "BinaryOperator" and c["op"] == "<" and strip(kids(c)[0])["k"] == "DeclRefExpr" and strip(kids(c)[0])["decl"]["id"] == var_id]
+            if len(mine) != 1:
+                return None
+            b = self.size_expr(kids(mine[0])[1], mine[0])
+            if b is None:
+                return None
+            if bound is not None and str(bound) != str(b):
+                return None
+            bound, braw = b, kids(mine[0])[1]
+            loopsn.append((lp, mine[0], conj))
+        wrap = bound if any(x["k"] == "BinaryOperator" and x["op"] == "-" and "unsigned" in (x.get("ty") or "") for x in walk(braw)) else None
+        inside = False
+        for lp, mine, conj in loopsn:
+            body = f.nodes.get(lp.get("body")) if isinstance(lp.get("body"), int) else None
+            if body is not None and f.contains(body, use):
+                inside = True
+            # to the right of the bound test in the same condition
+            idx = conj.index(mine)
+            if any(f.contains(c, use) for c in conj[idx + 1:]):
+                inside = True
+        hi = bound - 1 if inside else S.Max(e0, bound)
+        return (e0, hi, wrap)
+
     def _hull(self, var_id, depth):
         """a local that only ever receives loop/size expressions (pivot row: p = k; ... p = i): smallest and largest
         value over all its assignments, each evaluated where it is made"""
@@ -549,6 +703,113 @@ class Fun:
             los.append(b[0]); his.append(b[1]); lps.update(b[2])
         return (S.Min(*los) if len(set(los)) > 1 else los[0], S.Max(*his) if len(set(his)) > 1 else his[0], lps)
 
+    def _block_call_facts(self, b, before, unparsed):
+        """facts established by the calls made in block b (the callee returned normally, so its throwing guards passed);
+        `before`: only calls evaluated ahead of that node. A callee whose guards cannot be read makes the path unparsed."""
+        f, cfg = self.f, self.cfg
+        ck = (b, before["id"] if before is not None else None)
+        cache = self.__dict__.setdefault("_bcf", {})
+        if ck in cache:
+            rels, unp = cache[ck]
+            if unp:
+                unparsed[0] = True
+            return rels
+        rels, unp = [], False
+        els = cfg.blocks[b]["el"]
+        stop = None
+        if before is not None:
+            stop = e1._elem_index(cfg, els, before)
+        for i_, e in enumerate(els):
+            if stop is not None and i_ >= stop:
+                break
+            n = f.nodes.get(e)
+            if n is None or not is_call(n):
+                continue
+            if before is not None and f.contains(before, n):
+                continue
+            pf = self._post_facts(n)
+            if pf is None:
+                unp = True
+            else:
+                rels.extend(pf)
+        cache[ck] = (rels, unp)
+        if unp:
+            unparsed[0] = True
+        return rels
+
+    def _post_facts(self, call):
+        """size relations that hold whenever the in-repo callee returns normally, in the caller's terms; [] when the callee
+        has no size guard; None when it has guards that cannot be interpreted"""
+        cal = call["callee"]
+        if not cal.get("inrepo"):
+            return []
+        key = cal.get("key")
+        g = self.fb.fns.get(key) if key else None
+        if g is None or g.body is None or g.cfg is None:
+            return []
+        if getattr(self, "_depth", 0) > 1:
+            return []
+        if not any(n["k"] == "CXXThrowExpr" for n in g.all_nodes()):
+            return []
+        S = sp()
+        if key not in _POST:
+            gf = Fun(self.fb, g)
+            gf._depth = getattr(self, "_depth", 0) + 1
+            exits = [n for n in walk(g.body) if n["k"] == "ReturnStmt"]
+            sets, unp = [], False
+            if not exits:
+                # void function: facts at the last statement
+                last = [x for x in kids(g.body)] if g.body["k"] == "CompoundStmt" else []
+                exits = last[-1:] if last else []
+            for r in exits:
+                try:
+                    rels, u = gf.facts(r)
+                except Exception:
+                    rels, u = [], True
+                unp = unp or u
+                sets.append({str(x): x for x in rels})
+            if unp or not sets:
+                _POST[key] = (None, gf) if unp else ([], gf)
+            else:
+                common = set(sets[0])
+                for s_ in sets[1:]:
+                    common &= set(s_)
+                _POST[key] = ([sets[0][k_] for k_ in sorted(common)], gf)
+        rels, gf = _POST[key]
+        if rels is None:
+            return None
+        if not rels:
+            return []
+        sub = {}
+        args = self.f.args(call)
+        for i_, p_ in enumerate(g.params):
+            if i_ >= len(args):
+                break
+            ty = (p_.get("ty") or "").replace("&", "").strip()
+            nm = p_["name"]
+            if is_matrix_type(ty):
+                d = self.dims(args[i_], call)
+                if d and len(d) == 2 and None not in d:
+                    sub[gf.sym("R", nm)] = d[0]
+                    sub[gf.sym("C", nm)] = d[1]
+            elif is_vector_type(ty):
+                d = self.dims(args[i_], call)
+                if d and len(d) == 1 and d[0] is not None:
+                    sub[gf.sym("N", nm)] = d[0]
+            else:
+                e = self.size_expr(args[i_], call)
+                if e is not None:
+                    sub[gf.sym("P", nm)] = e
+        out = []
+        for r in rels:
+            r2 = r.subs(sub, simultaneous=True)
+            if any(x in gf.S.values() and x not in sub.values() for x in r2.free_symbols):
+                continue
+            if r2 in (S.true, S.false):
+                continue
+            out.append(r2)
+        return out
+
     # ---- facts
     def _rel(self, nd, tr):
         """sympy relation (or ('atom', text, truth)) for one branch fact"""
@@ -561,6 +822,10 @@ class Fun:
             l, r = self.size_expr(kids(nd)[0], nd), self.size_expr(kids(nd)[1], nd)
             if l is None or r is None:
                 t = render(nd)
+                for side in kids(nd):
+                    sd = strip(side)
+                    if sd["k"] == "DeclRefExpr" and sd["decl"]["kind"] == "local" and self._guarded_counter(sd["decl"]["id"], nd) is not None:
+                        return None
                 # the test of a counted loop is accounted for by the loop ranges (index_bounds / control), not here
                 for a in self.f.ancestors(nd):
                     if a["k"] == "ForStmt" and "cond" in a and self.f.contains(self.f.nodes[a["cond"]], nd):
@@ -629,6 +894,10 @@ class Fun:
                 if pos.get(s_, -1) <= pos[b]:
                     continue          # back edge
                 add = []
+                for r in self._block_call_facts(b, None, unparsed):
+                    k = key(r)
+                    relobj[k] = r
+                    add.append(k)
                 for t, tr, nd in e1.edge_facts(cfg, b, s_):
                     r = self._rel(nd, tr)
                     if r is None:
@@ -647,6 +916,13 @@ class Fun:
                     state[s_] = {inter}
                     collapsed[0] = True
         ds = state.get(sb, {frozenset()})
+        own = []
+        for r in self._block_call_facts(sb, site, unparsed):
+            k = key(r)
+            relobj[k] = r
+            own.append(k)
+        if own:
+            ds = {fs | frozenset(own) for fs in ds}
         good = []
         for fs in ds:
             atoms = {}
@@ -759,6 +1035,44 @@ class Fun:
                                 got = True
                 if got:
                     continue
+            if cond["k"] == "BinaryOperator" and cond["op"] in ("<", ">", "<=", ">=", "==", "!="):
+                l_, r_ = strip(kids(cond)[0]), strip(kids(cond)[1])
+                # the forward cursor's own bound test: passed at the first arrival when start < bound (or the bound wrapped)
+                if l_["k"] == "DeclRefExpr" and cond["op"] == "<":
+                    gc = self._guarded_counter(l_["decl"]["id"], cond)
+                    if gc is not None:
+                        bnd = self.size_expr(r_, cond)
+                        if bnd is not None:
+                            loops[l_["decl"]["name"]] = (gc[0], bnd)
+                            continue
+                # counted-loop variable against a literal: decided for the first iteration
+                if l_["k"] == "DeclRefExpr" and r_["k"] == "IntegerLiteral":
+                    rg = self.loop_range(l_["decl"]["id"], cond)
+                    if rg is not None and l_["decl"]["id"] not in self.approx_loops and rg[0].is_number:
+                        v0, c0 = int(rg[0]), int(r_["val"])
+                        val = {"<": v0 < c0, ">": v0 > c0, "<=": v0 <= c0, ">=": v0 >= c0, "==": v0 == c0, "!=": v0 != c0}[cond["op"]]
+                        want = set()
+                        for s_ in ss:
+                            ecs = cfg.edge_cond(b, s_)
+                            if ecs is None:
+                                continue
+                            # can the site be reached (forward) from this successor?
+                            seen_, todo_ = {s_}, [s_]
+                            hit = s_ == sb
+                            while todo_ and not hit:
+                                x_ = todo_.pop()
+                                for y_ in cfg.succ[x_]:
+                                    if y_ not in seen_ and pos.get(y_, -1) > pos.get(x_, -1):
+                                        if y_ == sb:
+                                            hit = True
+                                            break
+                                        seen_.add(y_)
+                                        todo_.append(y_)
+                            if hit:
+                                want.add(ecs[1])
+                        if val in want:
+                            loops[l_["decl"]["name"]] = rg
+                            continue
             if self._data_test(cond):
                 continue
             return loops, "reachability depends on '%s' (line %s), which is neither a size relation, a counted loop nor a test on element data" % (render(cond)[:50], cond.get("l"))
@@ -985,6 +1299,7 @@ def analyse(fb, f, invariants=None, public=True, extra_rels=None):
             lo, hi, loops = b
             approx = loops.pop("~approx", None) is not None
             extra_w = {k_[6:]: [loops.pop(k_)] for k_ in [k2 for k2 in loops if k2.startswith("~wrap:")]}
+            cursors = [loops.pop(k_) for k_ in [k2 for k2 in loops if k2.startswith("~exact:")]]
             wraps = {nm: ws for (nm, _), ws in fun.wrap.items() if nm in loops}
             wraps.update(extra_w)
             cl, why = fun.control(c)
